@@ -28,7 +28,7 @@ Tr == ndJsonDeserialize(IOEnv.TRACE)
 VARIABLES l, o, bad, nbad, done
 vars == <<l, o, bad, nbad, done>>
 
-NoAcq == [x |-> 0, a |-> 0, kind |-> "none", n |-> 0, meta |-> FALSE, frames |-> <<>>]
+NoAcq == [x |-> 0, a |-> 0, kind |-> "none", n |-> 0, meta |-> FALSE, unit |-> 1, frames |-> <<>>]
 OInit(acq) == [acq |-> acq, size |-> 0, hdr |-> FALSE, expect |-> 0, regions |-> <<>>, count |-> 0]
 
 Init == l = 1 /\ o = OInit(NoAcq) /\ bad = <<>> /\ nbad = 0 /\ done = FALSE
@@ -37,11 +37,14 @@ If(c, name) == IF c THEN <<name>> ELSE <<>>
 Flag(rules) == /\ bad' = (IF Len(bad) < 200 THEN bad \o [i \in 1..Len(rules) |-> <<rules[i], l>>] ELSE bad)
                /\ nbad' = nbad + Len(rules)
 
+\* positions and lengths are in units of o.acq.unit bytes (1, or 8 for files of a GiB and more: see tiffread.py); a
+\* description of at most 8 bytes lives inside its directory entry and is reported with length 0
+HdrLen == 16 \div o.acq.unit
 Inside(a, n) == a >= 0 /\ n >= 0 /\ a + n <= o.size
 Overlaps(a, n, rs) == n > 0 /\ \E k \in 1..Len(rs) : rs[k][2] > 0 /\ a < rs[k][1] + rs[k][2] /\ rs[k][1] < a + n
 
 \* the regions a directory claims: itself, its strip, its out-of-line description
-RegionsOf(e) == <<<<e.off, e.len>>, <<e.so, e.sl>>>> \o (IF e.dlen > 8 THEN <<<<e.doff, e.dlen>>>> ELSE <<>>)
+RegionsOf(e) == <<<<e.off, e.len>>, <<e.so, e.sl>>>> \o (IF e.dlen > 0 THEN <<<<e.doff, e.dlen>>>> ELSE <<>>)
 RECURSIVE SelfOverlap(_)
 SelfOverlap(rs) == IF Len(rs) < 2 THEN FALSE
                    ELSE Overlaps(rs[1][1], rs[1][2], Tail(rs)) \/ SelfOverlap(Tail(rs))
@@ -52,10 +55,10 @@ IfdRules(e) ==
   \o If(~Inside(e.off, e.len), "DirectoryOutsideFile")
   \o If(~e.tags_ok, "RequiredTagMissing")
   \o If(e.tags_ok /\ ~Inside(e.so, e.sl), "StripOutsideFile")
-  \o If(e.dlen > 8 /\ ~Inside(e.doff, e.dlen), "DescriptionOutsideFile")
+  \o If(e.dlen > 0 /\ ~Inside(e.doff, e.dlen), "DescriptionOutsideFile")
   \o If(e.next # 0 /\ e.next >= o.size, "LinkOutsideFile")
   \o If(Overlaps(e.off, e.len, o.regions) \/ (e.tags_ok /\ Overlaps(e.so, e.sl, o.regions))
-        \/ (e.dlen > 8 /\ Overlaps(e.doff, e.dlen, o.regions)) \/ (e.tags_ok /\ SelfOverlap(RegionsOf(e))), "StructuresOverlap")
+        \/ (e.dlen > 0 /\ Overlaps(e.doff, e.dlen, o.regions)) \/ (e.tags_ok /\ SelfOverlap(RegionsOf(e))), "StructuresOverlap")
   \o (IF ~known THEN <<>>       \* surplus directories are reported once, at Eof
       ELSE LET f == o.acq.frames[i + 1] IN
            If(e.tags_ok /\ (e.w # f.w \/ e.h # f.h), "WrongWidthHeight")
@@ -79,10 +82,11 @@ Step ==
   /\ l <= Len(Tr) /\ ~done /\ l' = l + 1 /\ done' = FALSE
   /\ LET e == Ev  k == e.e IN
      CASE k = "Acq" -> /\ Flag(If(e.n < 1 \/ Len(e.frames) # e.n, "HarnessBadAcq"))
-                       /\ o' = OInit([x |-> e.x, a |-> e.a, kind |-> e.kind, n |-> e.n, meta |-> e.meta, frames |-> e.frames])
+                       /\ o' = OInit([x |-> e.x, a |-> e.a, kind |-> e.kind, n |-> e.n, meta |-> e.meta,
+                                         unit |-> IF "unit" \in DOMAIN e /\ e.unit \in {1, 8} THEN e.unit ELSE 1, frames |-> e.frames])
        [] k = "Hdr" -> /\ Flag(If(e.exists /\ ~e.ok, "BadHeader")
-                               \o If(e.exists /\ e.ok /\ (e.first < 16 \/ e.first >= e.size), "FirstLinkOutsideFile"))
-                       /\ o' = [o EXCEPT !.size = e.size, !.hdr = e.ok, !.expect = e.first, !.regions = <<<<0, 16>>>>]
+                               \o If(e.exists /\ e.ok /\ (e.first < HdrLen \/ e.first >= e.size), "FirstLinkOutsideFile"))
+                       /\ o' = [o EXCEPT !.size = e.size, !.hdr = e.ok, !.expect = e.first, !.regions = <<<<0, HdrLen>>>>]
        [] k = "Ifd" -> /\ Flag(IfdRules(e))
                        /\ o' = [o EXCEPT !.expect = e.next, !.count = o.count + 1,
                                          !.regions = IF Len(o.regions) < 64 THEN o.regions \o RegionsOf(e) ELSE o.regions]
